@@ -41,7 +41,7 @@ class View:
         e = self.e
         srt = e.key_sort(key)
         a = e.harr(self.st, key, z3.ArraySort(I, srt))
-        return z3.Select(a, self._ref(obj))
+        return e.read_array(self.st, a, self._ref(obj))
 
     def v3(self, obj, key):
         return V3(self.f(obj, key + '.dx_'), self.f(obj, key + '.dy_'), self.f(obj, key + '.dz_'))
@@ -124,10 +124,10 @@ class Ctx:
 
 class Contract:
     def __init__(self, qname, prop, pre=None, post=None, assigns=None, safety=(), use=(), signature=None, name=None,
-                 canary=True, unroll=None, setup=None, max_depth=None, name_locals=0, safety_via=None, relational=(), frame=None, on_call=None, ret_model=None, assumed=False, lambda_ordinal=None, slice_loop=None, prefix_loop=None):
+                 canary=True, unroll=None, setup=None, max_depth=None, name_locals=0, safety_via=None, relational=(), frame=None, on_call=None, ret_model=None, assumed=False, lambda_ordinal=None, slice_loop=None, prefix_loop=None, split_heap_ifs=False):
         self.qname = qname; self.prop = prop; self.pre = pre; self.post = post; self.assigns = assigns
         self.safety = set(safety); self.use = list(use); self.signature = signature
-        self.name = name or qname; self.name_locals = name_locals; self.safety_via = safety_via; self.relational = list(relational); self.frame = frame; self.on_call = on_call; self.ret_model = ret_model; self.assumed = assumed; self.lambda_ordinal = lambda_ordinal; self.slice_loop = slice_loop; self.prefix_loop = prefix_loop; self.canary = canary; self.unroll = unroll; self.setup = setup; self.max_depth = max_depth
+        self.name = name or qname; self.name_locals = name_locals; self.safety_via = safety_via; self.relational = list(relational); self.frame = frame; self.on_call = on_call; self.ret_model = ret_model; self.assumed = assumed; self.lambda_ordinal = lambda_ordinal; self.slice_loop = slice_loop; self.prefix_loop = prefix_loop; self.split_heap_ifs = split_heap_ifs; self.canary = canary; self.unroll = unroll; self.setup = setup; self.max_depth = max_depth
 
     def applies(self, d, eng):
         return self.signature is None or self.signature in d['type']['qualType']
@@ -549,6 +549,7 @@ def check_function(eng, contract, result):
     if contract.unroll: saved_unroll = eng.unroll_limit; eng.unroll_limit = contract.unroll + 1
     eng.unroll_symbolic = contract.unroll or 0
     saved_nl = eng.name_locals; eng.name_locals = contract.name_locals
+    eng.split_heap_ifs = contract.split_heap_ifs
     nob0 = len(eng.obligations)
     try:
         st.env.update(env)
@@ -617,6 +618,7 @@ def check_function(eng, contract, result):
         result['decl'] = d
     finally:
         eng.safety = saved_safety; eng.use_contracts = saved_use; eng.max_depth = saved_depth; eng.name_locals = saved_nl
+        eng.split_heap_ifs = False
         if contract.unroll: eng.unroll_limit = saved_unroll
         eng.unroll_symbolic = 0
     for ob in eng.obligations[nob0:]:
